@@ -22,7 +22,7 @@ fn counts(rng: &mut Rng, cfg: &PCfg, size: usize) -> Counts {
     let max_m = ((cfg.max_code() - 1) / 2).min(1 << 40) as usize;
     let cap = match size {
         0 => 2,
-        1 => 5,
+        1 | 4 => 5,
         3 => 2500,
         _ => 14,
     };
@@ -166,7 +166,7 @@ const NAMES: [&[u8]; 7] = [
     b"0 1 2",
 ];
 
-fn symbols_and_comment(rng: &mut Rng, d: &mut Doc, k: &Counts) {
+fn symbols_and_comment(rng: &mut Rng, d: &mut Doc, k: &Counts, size: usize) {
     let mut kinds: Vec<(u8, usize)> = vec![];
     if k.i > 0 {
         kinds.push((b'i', k.i - 1));
@@ -193,7 +193,11 @@ fn symbols_and_comment(rng: &mut Rng, d: &mut Doc, k: &Counts) {
                 idx.to_string().as_bytes(),
             );
             d.raw(b" ");
-            d.tok(TokKind::Name, *rng.pick(&NAMES));
+            if let Some(t) = super::long_text(rng, size, 10) {
+                d.tok(TokKind::Name, &t);
+            } else {
+                d.tok(TokKind::Name, *rng.pick(&NAMES));
+            }
             d.raw(b"\n");
             d.item_done();
         }
@@ -208,7 +212,23 @@ fn symbols_and_comment(rng: &mut Rng, d: &mut Doc, k: &Counts) {
             b"\n",
             b"\xc3\xa4 utf8 \xe2\x82\xac\nc\ni0 x\n",
         ];
-        d.tok(TokKind::AigComment, *rng.pick(&texts));
+        if size >= 3 && !cfg!(miri) && rng.chance(1, 2) {
+            // a big comment section: thousands of lines of varying length, some very long
+            let mut text: Vec<u8> = vec![];
+            let nlines = *rng.pick(&[300usize, 2000, 6000]);
+            for _ in 0..nlines {
+                if let Some(t) = super::long_text(rng, size, 1) {
+                    text.extend(t);
+                } else {
+                    let n = rng.below(40);
+                    text.extend((0..n).map(|_| *rng.pick(b"abcdefgh ijk=0123")));
+                }
+                text.push(b'\n');
+            }
+            d.tok(TokKind::AigComment, &text);
+        } else {
+            d.tok(TokKind::AigComment, *rng.pick(&texts));
+        }
     }
 }
 
@@ -294,7 +314,7 @@ pub fn gen_aag(rng: &mut Rng, cfg: &PCfg, size: usize) -> Doc {
         d.raw(b"\n");
         d.item_done();
     }
-    symbols_and_comment(rng, &mut d, &k);
+    symbols_and_comment(rng, &mut d, &k, size);
     d
 }
 
@@ -389,6 +409,6 @@ pub fn gen_aig(rng: &mut Rng, cfg: &PCfg, size: usize) -> Doc {
         code += 2;
     }
     d.binary = Some((bin_start, d.bytes.len()));
-    symbols_and_comment(rng, &mut d, &k);
+    symbols_and_comment(rng, &mut d, &k, size);
     d
 }
